@@ -19,6 +19,8 @@
 //     rotation (entry offset 0..capacity-1, directory offset 0..dirLen-1) is enumerated in the
 //     thorough tier (quick: offsets 1..7 and the 7 multiples of capacity/8). Layouts that only other
 //     hash seeds would produce are NOT enumerated (only sampled by the unpinned fresh-process runs).
+//   - single-entry maps are explored as well: a loop body that inserts into the map it ranges over
+//     makes even a singleton order-dependent (whether the new entry is visited depends on the offset).
 //   - deviation bound: one deviating iteration per generation (thorough: also all pairs for the two
 //     smallest feature grammars). Orders that need >= 2 (resp. 3) simultaneous deviations are not covered.
 //
